@@ -117,6 +117,10 @@ def whole_flow_shortcuts_rule(prog: Program, rep, RID: str, cname: str = "kFlowD
         n += 1
         what = (dotted(c.func) or "").split(".")[-1]
         tests = enclosing_tests(f.node, c)
+        # conditions computed into a local first (`whole_flow = len(ignored) == 0 and conserved`) are written out
+        from rules.common import substitute_locals as _sl_w
+        _ld = local_single_defs(f.node)
+        tests = [(_sl_w(t, _ld), pol) for t, pol in tests]
         guard = B.mk_and([B.parse_pol(t, pol) for t, pol in tests])
         atoms = B.atoms_of(guard)
         ign = [a for a in atoms if "edges_to_ignore" in a]
@@ -634,15 +638,28 @@ def constraint_edges_trusted_rule(prog: Program, rep, RID: str, cname: str = "kL
     coverage that holds only for edges of positive length: the update has to filter them."""
     f = prog.own_method(cname, "__init__")
     n = 0
+    aliases = {st.value.id for st in ast.walk(f.node) if isinstance(st, ast.Assign) and isinstance(st.value, ast.Name) and
+               any(isinstance(t, ast.Subscript) and isinstance(t.slice, ast.Constant) and t.slice.value == "trusted_edges_for_safety" for t in st.targets)}
+    nested = {fd.name: fd for fd in ast.walk(f.node) if isinstance(fd, ast.FunctionDef) and fd is not f.node}
     for c in calls_in(f.node):
-        if isinstance(c.func, ast.Attribute) and c.func.attr == "update" and "trusted_edges_for_safety" in norm(c.func.value) and c.args:
-            tests = [norm(t) for t, pol in enclosing_tests(f.node, c) if pol]
+        if isinstance(c.func, ast.Attribute) and c.func.attr in ("update", "add") and c.args and \
+                ("trusted_edges_for_safety" in norm(c.func.value) or (isinstance(c.func.value, ast.Name) and c.func.value.id in aliases)):
+            all_tests = [(t, pol) for t, pol in enclosing_tests(f.node, c)]
+            tests = [norm(t) for t, pol in all_tests if pol]
             if not any("subpath_constraints_coverage_length == 1" in t for t in tests):
                 continue
             n += 1
             key = f"{cname}.__init__:constraint-edges-trusted"
             arg = c.args[0]
-            filtered = isinstance(arg, (ast.GeneratorExp, ast.ListComp, ast.SetComp)) and any("length_attr" in norm(i) and re.search(r"> ?0|!= ?0", norm(i)) for g in arg.generators for i in g.ifs)
+            positive = lambda txt: "length_attr" in txt and re.search(r"> ?0|!= ?0", txt)
+            filtered = isinstance(arg, (ast.GeneratorExp, ast.ListComp, ast.SetComp)) and any(positive(norm(i)) for g in arg.generators for i in g.ifs)
+            # or: an explicit loop that adds the edge under a test on its length - directly, or through a local predicate
+            for t, pol in all_tests:
+                if pol and positive(norm(t)):
+                    filtered = True
+                if pol and isinstance(t, ast.Call) and isinstance(t.func, ast.Name) and t.func.id in nested and \
+                        any(isinstance(r, ast.Return) and r.value is not None and positive(norm(r.value)) for r in ast.walk(nested[t.func.id])):
+                    filtered = True
             if filtered:
                 rep.ok(RID, key, "under length coverage only constraint edges of positive length are trusted", f.loc(c))
             else:
